@@ -140,6 +140,28 @@ theorem C01_live_signal_delivered (b0 : Nat) (hb : b0 ≠ 0) (h : List Ev) (hh :
     simp only [hf, Option.map_some, Option.some.injEq] at halive
     simp [hpid, pushEff, sigOf_good cfg_good, halive]
 
+/-- the same for setters: on a live incarnation, accepted values are applied exactly once, to it -/
+theorem C01_live_setter_applied (b0 : Nat) (hb : b0 ≠ 0) (h : List Ev) (hh : HistOK h)
+    (i : Nat) (o : PObj) (kind : SetKind) (args a : List Int)
+    (ho : (run cfg (St.init b0) h).ps.objs[i]? = some o)
+    (hlive : Listed (run cfg (St.init b0) h).kern o) (hargs : setterArgs cfg o.pid kind args = some a) :
+    (step cfg (run cfg (St.init b0) h) (.c (.setter i kind args))).2 = .unit
+      ∧ (step cfg (run cfg (St.init b0) h) (.c (.setter i kind args))).1.log
+          = ⟨.set kind, i, o.pid, a, some o.ghost⟩ :: (run cfg (St.init b0) h).log := by
+  have hinv := run_inv cfg_good.toBootGood h _ hh (init_inv cfg.clk hb)
+  generalize run cfg (St.init b0) h = s at *
+  obtain ⟨B, hB, hok⟩ := hinv.ps.objs o (List.mem_of_getElem? ho)
+  have halive := (listed_iff_owner hinv.kern o).1 hlive
+  have hgf := (guarded_false_iff cfg_good.toBootGood cfg_good.goneRaises hB (hinv.ps.boot_nz B hB) hok).2 halive
+  rw [step_method cfg s (call := .setter i kind args) rfl ho rfl, setterM_eq]
+  rw [guardOf_good cfg_good, hgf, hargs]
+  simp only [Kernel.owner] at halive
+  cases hf : s.kern.find o.pid with
+  | none => simp [hf] at halive
+  | some x =>
+    simp only [hf, Option.map_some, Option.some.injEq] at halive
+    simp [pushEff, halive]
+
 /-! ## Non-vacuity -/
 
 /-- a configuration with every guard in place, independent of the translator -/
